@@ -203,6 +203,9 @@ def _judge(args):
         flavours.append({"src": "clstruthy", "call": "asyncdef"})
         if case["log"][-1]["ev"] == "call":
             flavours.append({"src": "list", "call": "asyncdef"})     # a failing callable over a plain (sized) list
+        elif tool != "anext":
+            flavours.append({"src": "iter", "call": "asyncdef"})     # a synchronous iterator that fails
+
     if "C04" in want or ("C01" in want and kind == "full" and not is_agg and tool != "iter"):
         # iterators that are falsy and equal to one another: iterated, told apart and closed like any others
         if not any(f["src"] == "clstruthy" for f in flavours):
@@ -218,7 +221,7 @@ def _judge(args):
         # the shapes of the quantifier: list / iterator / async iterator, every callable flavour
         fault_kinds = ["exc", "typeerr"] if kind == "fault" else ["exc"]
         if tool == "sync":
-            flavours = [{"src": "cls", "call": c} for c in ("asyncdef", "def", "partial", "obj", "aw", "cls", "mixed", "mixed2", "defwraps")]
+            flavours = [{"src": "cls", "call": c} for c in ("asyncdef", "def", "partial", "obj", "aw", "cls", "mixed", "mixed2", "defwraps", "clsnew", "objfalsy")]
         elif tool == "any_iter":
             flavours = [{"src": f, "call": "asyncdef"} for f in ("cls", "agen", "list", "iter")]
     for fl in flavours:
@@ -295,8 +298,12 @@ def _judge(args):
                                       "expected_log": e, "observed_log": g})
                 cnt("C19_cases")
             # C06: a failing use surfaces unchanged, nothing is used afterwards
-            if "C06" in want and fl["src"] in ("cls", "clstruthy", "list") and kind == "fault":
-                if not o.fault_fired:
+            if "C06" in want and fl["src"] in ("cls", "clstruthy", "list", "iter") and kind == "fault":
+                if not o.fault_fired and fl["src"] == "iter":
+                    # a synchronous iterator is read through an adapter: once it has reported its end, asking again
+                    # does not reach it any more -- a failure placed at such a second look has no subject here
+                    cnt("C06_fault_behind_adapter")
+                elif not o.fault_fired:
                     # the implementation never performs the use at which the standard library fails:
                     # it finishes (or goes on) where the counterpart raises
                     cnt("C06_fault_not_reached")
@@ -560,6 +567,62 @@ SCOPE = {
 }
 
 
+def aiter_failures(v):
+    """The first use of an async iterable is asking it for its iterator: when THAT fails -- with whatever class of
+    exception, AttributeError and TypeError included -- the same exception comes out of the tool (at the call or at the
+    first item), and the iterable is not looked at in any other way afterwards (no second attempt, no fallback to
+    another protocol)."""
+    from .driver import Accounting, Task  # noqa: PLC0415
+    L = tm.load_lib()
+
+    async def ident(*a):
+        return a[0] if a else None
+
+    tools = {
+        "list": lambda x: L.list(x), "tuple": lambda x: L.tuple(x), "set": lambda x: L.set(x), "dict": lambda x: L.dict(x),
+        "sorted": lambda x: L.sorted(x), "sum": lambda x: L.sum(x), "min": lambda x: L.min(x), "max": lambda x: L.max(x),
+        "all": lambda x: L.all(x), "any": lambda x: L.any(x), "reduce": lambda x: L.reduce(ident, x),
+        "nlargest": lambda x: L.nlargest(x, 1), "nsmallest": lambda x: L.nsmallest(x, 1),
+        "enumerate": lambda x: L.enumerate(x), "filter": lambda x: L.filter(None, x), "filterfalse": lambda x: L.filterfalse(None, x),
+        "map": lambda x: L.map(ident, x), "starmap": lambda x: L.starmap(ident, x), "islice": lambda x: L.islice(x, 2),
+        "takewhile": lambda x: L.takewhile(ident, x), "dropwhile": lambda x: L.dropwhile(ident, x), "accumulate": lambda x: L.accumulate(x),
+        "batched": lambda x: L.batched(x, 2), "pairwise": lambda x: L.pairwise(x), "cycle": lambda x: L.cycle(x),
+        "chain": lambda x: L.chain([], x), "zip": lambda x: L.zip([1], x), "zip_longest": lambda x: L.zip_longest([1], x),
+        "merge": lambda x: L.merge([], x), "compress": lambda x: L.compress(x, [1]), "groupby": lambda x: L.groupby(x),
+        "any_iter": lambda x: L.any_iter(x),
+    }
+    for exc_cls in (AttributeError, TypeError, tm.InjectedError):
+        for name, make in tools.items():
+            err = exc_cls("the iterable cannot be iterated right now")
+            looks = []
+
+            class Failing:
+                def __aiter__(self):
+                    looks.append("__aiter__")
+                    raise err
+
+                def __getattr__(self, attr):          # whatever else is asked of it is recorded (and absent)
+                    looks.append(attr)
+                    raise AttributeError(attr)
+
+            async def go(make=make):
+                r = make(Failing())
+                if hasattr(r, "__aiter__"):
+                    return await L.list(r)
+                return await r
+
+            res = Task(go(), Accounting()).run()
+            after = looks[looks.index("__aiter__") + 1:] if "__aiter__" in looks else looks
+            after = [a for a in after if a != "aclose"]      # being asked to close is no use of the iterable
+            got = "same" if res[0] == "raised" and res[1] is err else f"{res[0]}:{type(res[1]).__name__}"
+            if got != "same":
+                v.violation(f"C06/{name}/failure-of-aiter-not-propagated-unchanged",
+                            {"engine": "scenario", "exception": exc_cls.__name__, "expected": "the exception raised by __aiter__", "observed": got + " " + repr(res[1])[:80]})
+            elif "__aiter__" in after or "__iter__" in after or "__getitem__" in after:
+                v.violation(f"C06/{name}/iterable-used-again-after-aiter-failed",
+                            {"engine": "scenario", "exception": exc_cls.__name__, "observed": looks})
+
+
 def nontrivial(case):
     """A case is non-trivial when the tool pulled at least one item."""
     return any(e["ev"] == "pull" and e["res"] == "item" for e in case["log"]) or \
@@ -632,6 +695,8 @@ def check(prop, tier, seed):
                 ok, obs = False, repr(ex)
             if not ok:
                 v.violation("C01/tee/number-of-children-differs-from-itertools", {"engine": "scenario", "cfg": {"n": n_}, "expected": {"children": want}, "observed": obs})
+    if prop == "C06":
+        aiter_failures(v)
     if prop in ("C01", "C02", "C04", "C05", "C06"):
         sub["beyond_bounds"] = beyond_bounds(prop, tier, seed, v)
     if prop == "C19":
